@@ -38,6 +38,122 @@ def valve_monitor(chk):
     hist = [
         ("force-empty on/off in halt, level never rises", [["tank", 5], ["mqtt", "/settings/tank/force_empty", "ON"], ["mqtt", "/settings/tank/force_empty", "OFF"], ["run", 2 * 3600 + 60]], 2 * 3600 + 30),
         ("eco, level stuck in low", [["tank", 50], ["mqtt", "/settings/mode", "eco"], ["run", 100], ["tank", 22], ["run", 6 * 3600 + 120]], 6 * 3600 + 30),
+        ("force-empty on/off in halt, level rises above too_low then sticks in low", [["tank", 5], ["mqtt", "/settings/tank/force_empty", "ON"], ["mqtt", "/settings/tank/force_empty", "OFF"], ["run", 30], ["tank", 14], ["run", 6 * 3600 + 120]], 30 + 6 * 3600 + 15),
+        ("force-empty on/off in halt, level in low then drops below too_low", [["tank", 5], ["mqtt", "/settings/tank/force_empty", "ON"], ["mqtt", "/settings/tank/force_empty", "OFF"], ["run", 30], ["tank", 14], ["run", 600], ["tank", 3], ["run", 120], ["tank", 14], ["run", 60]], 700),
+        ("wintering entered, force-empty toggled", [["tank", 3], ["mqtt", "/settings/mode", "wintering"], ["run", 30], ["mqtt", "/settings/tank/force_empty", "ON"], ["run", 5], ["mqtt", "/settings/tank/force_empty", "OFF"], ["run", 2 * 3600 + 60]], 2 * 3600 + 30),
+    ]
+    for name, acts, limit in hist:
+        r = scenario.Runner({"tank_raw": 1000.0, "cover_rate": 25.0}, [])
+        for a in acts:
+            r.do(a)
+        # longest continuous energised interval of pin main
+        pin = r.sys.pins["main"][0]
+        on_since, longest = None, 0.0
+        for (t, kind, data) in r.world.log:
+            if kind == "gpio" and data[0] == pin:
+                if data[1] is False and on_since is None:
+                    on_since = t
+                elif data[1] is True and on_since is not None:
+                    longest = max(longest, (t - on_since) / 1e6)
+                    on_since = None
+        if on_since is not None:
+            longest = max(longest, (r.world.now_us - on_since) / 1e6)
+        still_open = r.sys.pin_on("main")
+        r.world.close()
+        n += 1
+        if longest > limit or still_open:
+            chk.violation("main-valve-open-forever" if still_open else "main-valve-open-too-long", f"{name}: mains valve energised {longest:.0f} s (limit {limit} s), still open: {still_open}", {"kind": "scenario", "scenario": {"opts": {"tank_raw": 1000.0, "cover_rate": 25.0}, "actions": acts}})
+    # hysteresis on level traces of the real composed system, against the thresholds of config.ini for the level set the
+    # mode implies (eco phases: eco set; open modes: overflow set), including mode round trips
+    from checks import tank_common as tc
+
+    cfg = tc.read_cfg()
+    bad = 0
+    polls = 0
+    for k in range(6 if chk.tier == "quick" else 60):
+        r = scenario.Runner({"tank_raw": 1000.0, "cover_rate": 25.0}, [])
+        trace = [["tank", 50], ["mqtt", "/settings/mode", "eco"], ["run", 60]]
+        trips = rng.choice([0, 1, 1, 2])
+        for a in trace:
+            r.do(a)
+        plan = []
+        for t in range(trips):
+            plan += [("mode", rng.choice(["standby", "overflow"])), ("levels", 8), ("mode", "eco"), ("levels", 8)]
+        plan += [("levels", 12)]
+        for kind, arg in plan:
+            if not r.world.alive("Tank") or not r.world.alive("Filtration") or r.sys.state("Filtration") == "halt":
+                break
+            if kind == "mode":
+                r.do(["tank", 50]); trace.append(["tank", 50])
+                r.do(["mqtt", "/settings/mode", arg]); trace.append(["mqtt", "/settings/mode", arg])
+                r.do(["run", 450]); trace.append(["run", 450])
+                continue
+            for _ in range(arg):
+                f = r.sys.state("Filtration")
+                if f.startswith(("eco", "heating", "reload_eco", "wash")):
+                    lv = cfg["eco"]
+                elif f.startswith(("standby", "overflow", "comfort", "sweep", "reload_standby", "reload_overflow")):
+                    lv = cfg["overflow"]
+                else:
+                    break
+                lo, hy = lv["low"], cfg["hyst"]
+                lvl = rng.choice([lo - hy - 3, lo - hy - 1, lo + hy, lo + hy + 2, 50, lv["high"] + hy + 1, lo, lo - hy])
+                r.do(["tank", lvl]); trace.append(["tank", lvl])
+                r.do(["run", 45]); trace.append(["run", 45])
+                f2 = r.sys.state("Filtration") if r.world.alive("Filtration") else "DEAD"
+                same = (f.startswith(("eco", "heating", "reload_eco", "wash")) and f2.startswith(("eco", "heating", "reload_eco", "wash"))) or \
+                       (f.startswith(("standby", "overflow", "comfort", "sweep")) and f2.startswith(("standby", "overflow", "comfort", "sweep", "reload_standby", "reload_overflow")))
+                if not r.world.alive("Tank") or not same:
+                    break
+                st = r.sys.state("Tank")
+                polls += 1
+                open_ = r.sys.pin_on("main")
+                what = None
+                if lvl < lo - hy and lvl >= cfg["tooLow"] and not (st == "low" and open_):
+                    what = f"level {lvl} < low − hyst = {lo - hy} ({'eco' if lv is cfg['eco'] else 'overflow'} set) for 45 s but tank is {st}, valve open: {open_}"
+                    key = "valve-not-opened-below-low"
+                elif lvl >= lo + hy and (st not in ("normal", "high") or open_):
+                    what = f"level {lvl} ≥ low + hyst = {lo + hy} for 45 s but tank is {st}, valve open: {open_}"
+                    key = "valve-not-closed-after-recovery"
+                if what:
+                    bad += 1
+                    chk.violation(key, f"filtration {f}: " + what, {"kind": "scenario", "scenario": {"opts": {"tank_raw": 1000.0, "cover_rate": 25.0}, "actions": list(trace)}})
+                    break
+        r.world.close()
+    chk.correspondence("C05 monitor on the real composed system: valve/level traces against config.ini's thresholds for the mode's level set (with eco/open round trips) and the 2 h / 6 h limits (incl. force-empty toggled while halted, wintering)", n + polls, bad)
+
+
+def search(chk):
+    res = ac.exploration(chk)
+    for k, f in sorted(res["findings"].items()):
+        if f["property"] == "C05":
+            chk.violation(f["key"], f["what"], {"kind": "scenario", "scenario": f["scenario"], "step": f["step"]})
+
+
+def replay(path):
+    return ac.replay(path)
+
+
+def extra(chk, info, res):
+    from checks import tank_common as tc
+
+    tc.decisions_correspondence(chk)
+    valve_monitor(chk)
+
+
+def valve_monitor(chk):
+    """C05 (ii)/(iii) on the real composed system: valve vs measured level at every tank poll; limits 2 h / 6 h incl. the
+    history 'force-empty switched on and off while Filtration is halted'."""
+    import random
+    from sim import scenario
+
+    rng = random.Random(chk.seed + 5)
+    n = 0
+    hist = [
+        ("force-empty on/off in halt, level never rises", [["tank", 5], ["mqtt", "/settings/tank/force_empty", "ON"], ["mqtt", "/settings/tank/force_empty", "OFF"], ["run", 2 * 3600 + 60]], 2 * 3600 + 30),
+        ("eco, level stuck in low", [["tank", 50], ["mqtt", "/settings/mode", "eco"], ["run", 100], ["tank", 22], ["run", 6 * 3600 + 120]], 6 * 3600 + 30),
+        ("force-empty on/off in halt, level rises above too_low then sticks in low", [["tank", 5], ["mqtt", "/settings/tank/force_empty", "ON"], ["mqtt", "/settings/tank/force_empty", "OFF"], ["run", 30], ["tank", 14], ["run", 6 * 3600 + 120]], 30 + 6 * 3600 + 15),
+        ("force-empty on/off in halt, level in low then drops below too_low", [["tank", 5], ["mqtt", "/settings/tank/force_empty", "ON"], ["mqtt", "/settings/tank/force_empty", "OFF"], ["run", 30], ["tank", 14], ["run", 600], ["tank", 3], ["run", 120], ["tank", 14], ["run", 60]], 700),
         ("wintering entered, force-empty toggled", [["tank", 3], ["mqtt", "/settings/mode", "wintering"], ["run", 30], ["mqtt", "/settings/tank/force_empty", "ON"], ["run", 5], ["mqtt", "/settings/tank/force_empty", "OFF"], ["run", 2 * 3600 + 60]], 2 * 3600 + 30),
     ]
     for name, acts, limit in hist:
